@@ -689,3 +689,70 @@ pub fn l1_cmsg_read<const SL: usize, const MT: u8>() {
     core::mem::forget(r);
     core::mem::forget(b);
 }
+
+/// C03, reference -> pilota: any non-zero byte is `true` in the binary protocol (spec: legal
+/// alternative form); compact element bools: 1 = true, 2 = false.
+#[cfg(kani)]
+pub fn l1_bool_any_byte<P: Proto>() {
+    let b: u8 = kani::any();
+    let mut buf = static_input([b, 9, 9]);
+    let mut r = P::reader(&mut buf);
+    let got = r.read_bool();
+    match P::WIRE {
+        Wire::Compact => {
+            if b == 1 || b == 2 {
+                match &got {
+                    Ok(v) => kani::assert(*v == (b == 1), "C03: compact element bool 1 = true, 2 = false"),
+                    Err(_) => kani::assert(false, "C03: compact element bool 1/2 must decode"),
+                }
+            }
+        }
+        _ => match &got {
+            Ok(v) => kani::assert(*v == (b != 0), "C03: any non-zero byte is true in the binary protocol"),
+            Err(_) => kani::assert(false, "C03: a bool byte always decodes in the binary protocol"),
+        },
+    }
+    kani::assert(P::remaining(&mut r) == 2, "C03: bool consumes one byte");
+    kani::cover!(true, "reached end");
+    core::mem::forget(got);
+    core::mem::forget(r);
+    core::mem::forget(buf);
+}
+
+/// C03, reference -> pilota: compact field header in the LONG form although the delta form
+/// would fit (legal alternative), and delta form with every delta 1..=15.
+#[cfg(kani)]
+pub fn l1_compact_field_alt_forms() {
+    let last: i16 = kani::any();
+    let id: i16 = kani::any();
+    kani::assume(last >= 0 && id > last && (id as i32 - last as i32) <= 15);
+    let long: bool = kani::any();
+    let x: i8 = kani::any();
+    let mut o = rt::Out::<16>::new();
+    // first field establishes `last` (long form), then the field under test, then stop
+    rt::cmp_field(&mut o, 0, last, rt::ct::I8, true);
+    o.put(x as u8);
+    rt::cmp_field(&mut o, last, id, rt::ct::I8, long);
+    o.put(x as u8);
+    o.put(0);
+    let n = o.n;
+    let mut b = static_input(o.b);
+    b.truncate(n);
+    let mut r = PCompact::reader(&mut b);
+    ok(r.read_struct_begin());
+    let f = ok(r.read_field_begin());
+    kani::assert(f.id == Some(last), "C03: first field id");
+    ok(r.read_i8());
+    ok(r.read_field_end());
+    let f = ok(r.read_field_begin());
+    kani::assert(f.field_type == TType::I8 && f.id == Some(id), "C03: reader accepts long-form and every delta-form header of the reference encoder");
+    kani::assert(ok(r.read_i8()) == x, "C03: value after the header");
+    ok(r.read_field_end());
+    let f = ok(r.read_field_begin());
+    kani::assert(f.field_type == TType::Stop, "C03: stop");
+    kani::cover!(id - last == 15 && !long, "delta 15 in short form");
+    kani::cover!(long, "long form although the delta fits");
+    kani::cover!(true, "reached end");
+    core::mem::forget(r);
+    core::mem::forget(b);
+}
